@@ -956,6 +956,20 @@ def b_is_totally_positive(p, rng):
         M = base.copy()
         M[0, n - 1] += 0.5j
         return (M,), False
+    if v in ("rect-wide", "rect-tall"):  # rectangular totally positive matrices: the first n rows (columns) of a larger one
+        big = _vandermonde(n + 2)
+        M = big[:n, :] if v == "rect-wide" else big[:, :n]
+        return (M.astype(complex) if cx else M,), True
+    if v in ("rect-wide-bad", "rect-tall-bad"):  # the only negative minors involve the rows / columns OUTSIDE the leading square block
+        if n < 2:
+            raise _NA
+        big = _vandermonde(n + 2)
+        M = (big[:n, :] if v == "rect-wide-bad" else big[:, :n]).copy()
+        if v == "rect-wide-bad":
+            M[:, [n, n + 1]] = M[:, [n + 1, n]]
+        else:
+            M[[n, n + 1], :] = M[[n + 1, n], :]
+        return (M.astype(complex) if cx else M,), False
     raise KeyError(v)
 
 
@@ -1416,7 +1430,7 @@ PREDS = {
     "is_commuting": ("toqito.matrix_props", b_is_commuting, ["common-eigenbasis", "polynomial", "with-identity", "kron-factors"], ["generic", "perturbed", "pauli-xz"], ["swap-args", "simul-similarity", "scale-both"], ("common-eigenbasis", ["perturbed"])),
     "is_orthonormal": ("toqito.matrix_props", b_is_orthonormal, ["rows-of-unitary", "noise", "list-input"], ["orthogonal-not-normalised", "normalised-not-orthogonal", "list-input-not-orthogonal"], ["rows-unitary", "rows-perm-phase"], ("rows-of-unitary", ["orthogonal-not-normalised", "normalised-not-orthogonal"])),
     "is_linearly_independent": ("toqito.matrix_props", b_is_linearly_independent, ["independent", "column-vectors"], ["combination", "repeated", "too-many", "zero-vector"], ["vl:apply-invertible", "vl:mix-invertible", "vl:scale-each", "vl:permute"], ("independent", ["combination"])),
-    "is_totally_positive": ("toqito.matrix_props", b_is_totally_positive, ["exact", "int"], ["neg-entry", "row-swap", "complex-entry"], ["transpose", "pos-diag-scalings", "reverse-both"], ("exact", ["row-swap"])),
+    "is_totally_positive": ("toqito.matrix_props", b_is_totally_positive, ["exact", "int", "rect-wide", "rect-tall"], ["neg-entry", "row-swap", "complex-entry", "rect-wide-bad", "rect-tall-bad"], ["transpose", "pos-diag-scalings", "reverse-both"], ("exact", ["row-swap"])),
     "is_pure": ("toqito.state_props", b_is_pure, ["pure", "basis-state", "list-all-pure"], ["mixed", "maxmixed", "list-one-mixed"], ["states-conjU", "states-permute"], ("pure", ["mixed"])),
     "is_mixed": ("toqito.state_props", b_is_mixed, ["mixed", "maxmixed"], ["pure", "basis-state"], ["states-conjU"], ("mixed", ["pure"])),
     "is_ensemble": ("toqito.state_props", b_is_ensemble, ["weighted-states", "single-state", "with-zero-operator"], ["total-0.9", "total-1.1", "negative-operator", "non-hermitian-operator"], ["states-conjU", "states-permute", "states-split"], ("weighted-states", ["total-0.9", "negative-operator"])),
